@@ -238,6 +238,21 @@ def dup_lists(rng: random.Random, n_lists: int, wild_ok: bool):
         _, dupidx, _ = net.find_duplicate_reaction(mode)
         net.remove_reaction(list(dupidx))
         net.find_duplicate_reaction(mode)
+        # a reaction derived from one the searches above have already hashed (shallow copy, identity rewritten to that of ANOTHER entry
+        # the network holds or held): the next search must see it as the repeat it is
+        if net.reaction_list and len(lst) > 1:
+            import copy
+            src = net.reaction_list[0]
+            other = next((d for d in lst if not (mk(d) == src)), None)
+            if other is not None:
+                tmpl = mk(other)
+                new = copy.copy(src)
+                new.reactants, new.products = list(tmpl.reactants), list(tmpl.products)
+                new.temp_min, new.temp_max, new.reaction_type, new.idxfromfile = tmpl.temp_min, tmpl.temp_max, tmpl.reaction_type, tmpl.idxfromfile
+                net.add_reaction(new)
+                net.add_reaction(mk(other))
+                for m2 in (None, "short"):
+                    net.find_duplicate_reaction(m2)
 
 
 # ------------------------------------------------------------------------------- naunet extend
